@@ -139,10 +139,7 @@ class RepeatedNodeWrapper(MutableSequence[_M]):
         if length is None:
             length = len(self._repeated.items)
         for i, value in enumerate(values):
-            if i or index:
-                tokens.extend(copy.deepcopy(self._separators))
-                tokens.extend(value.detach())
-            elif length:
+            if index == 0 and length:
                 tokens.extend(value.detach())
                 tokens.extend(copy.deepcopy(self._separators))
                 if separators_before_last is None:
@@ -150,6 +147,9 @@ class RepeatedNodeWrapper(MutableSequence[_M]):
                         self._repeated.items[0].first_token)
                     assert separators_before_last is not None
                 ref = separators_before_last
+            elif i or index:
+                tokens.extend(copy.deepcopy(self._separators))
+                tokens.extend(value.detach())
             else:
                 tokens.extend(copy.deepcopy(self._separators_before))
                 tokens.extend(value.detach())
